@@ -30,6 +30,11 @@ func c01DrainStep(e vEnc, full []byte, maxBuf int) {
 	vAssert("drain_err", err == nil || (err == io.EOF && o+n == L))
 	vAssertEqBytes("drain_bytes", p[:n], full[o:o+n])
 	vAssert("drain_cursor", e.getOff() == o+n)
+	// a Read changes nothing but the cursor: re-reading from the start still yields the whole encoding
+	e.setOff(0)
+	again := make([]byte, L+64)
+	m, _ := e.read(again)
+	vAssertEqBytes("drain_step_leaves_encoding_unchanged", again[:m], full)
 }
 
 // c01Layout: one Read with a buffer longer than any encoding returns exactly the reference bytes.
@@ -261,7 +266,7 @@ func VH_C01_FileHeaderDrain() {
 // ---- tracker registration: 00 01 port(2) users(2) 00 00 passID(4) {len(1) text}x3 ----------------------------
 
 func c01Tracker() (*TrackerRegistration, []byte) {
-	tr := &TrackerRegistration{Port: [2]byte{vU8("p0"), vU8("p1")}, UserCount: int(vU16("users")), Name: vString("name", 255), Description: vString("desc", 255), Password: vString("pass", 255)}
+	tr := &TrackerRegistration{Port: [2]byte{vU8("p0"), vU8("p1")}, UserCount: int(vU16("users")), Name: vString("name", 255), Description: string(vBytesEach("desc", 2)), Password: string(vBytesEach("pass", 2))}
 	copy(tr.PassID[:], vBytesN("passid", 4))
 	ref := []byte{0, 1, tr.Port[0], tr.Port[1], byte(tr.UserCount >> 8), byte(tr.UserCount), 0, 0}
 	ref = append(ref, tr.PassID[:]...)
